@@ -431,8 +431,17 @@ impl<
                 // `America/Sao_Paulo`.) And thus, this would return `None`.
                 // So if it does, we pretend as if the POSIX time zone doesn't
                 // exist.
+                //
+                // The POSIX time zone only describes the time from the last
+                // explicit transition on. A transition it reports before
+                // that point (the rule applied to a year the explicit
+                // transitions still cover) did not happen.
                 if let Some(trans) = posix_tz.previous_transition(ts) {
-                    return Some(trans);
+                    if trans.timestamp().as_second()
+                        > self.timestamps()[index]
+                    {
+                        return Some(trans);
+                    }
                 }
             }
             index
